@@ -17,6 +17,22 @@ func parseStrUint(buf []byte) (u uint) {
 	return
 }
 
+// parseSubSecMillis parses the digits of a SubSecTime value, which are the decimal
+// fraction of a second ("5" is 0.5s, "25" is 0.25s, "123456" is 0.123456s), and returns milliseconds.
+func parseSubSecMillis(buf []byte) (ms uint16) {
+	digits := 0
+	for i := 0; i < len(buf) && digits < 3; i++ {
+		if buf[i] >= '0' && buf[i] <= '9' {
+			ms = ms*10 + uint16(buf[i]-'0')
+			digits++
+		}
+	}
+	for ; digits < 3; digits++ {
+		ms *= 10
+	}
+	return ms
+}
+
 // trimNULBuffer removes trailing bytes from Buffer
 func trimNULBuffer(buf []byte) []byte {
 	for i := len(buf) - 1; i >= 0; i-- {
